@@ -236,6 +236,8 @@ def run(ctx, ck) -> None:
         ck.incomplete('N3', hfn, f'HomothetyRule.apply: cannot identify the roles {[k for k in need if roles is None or k not in roles]}')
     else:
         first_v, last_v, kept_v, side_v, count_v = (('var', roles[k]) for k in ('first', 'last', 'kept', 'side', 'count'))
+        count_v = roles.get('count_term', count_v)
+        scal_v = ('var', roles['scalars']) if 'scalars' in roles else None
         aol = roles['side_term']
         osz, isz = ('call', ('attr', first_v, 'out_size'), (), ()), ('call', ('attr', last_v, 'in_size'), (), ())
         want_cmp = {('cmp', 'le', osz, isz), ('cmp', 'lt', osz, isz), ('cmp', 'ge', isz, osz), ('cmp', 'gt', isz, osz)}
@@ -272,6 +274,8 @@ def run(ctx, ck) -> None:
                 fs |= _af(e, q, {})
             few = ('lt', ('call', ('var', 'len'), (('var', ops_name),), ()), ('const', '2')) in fs or ('le', ('call', ('var', 'len'), (('var', ops_name),), ()), ('const', '1')) in fs
             counted = any(f[0] == 'eq' and count_v in f[1] and any(x in (('const', '0'), ('const', '1')) for x in f[1]) for f in fs)
+            # `not scalars`: the list of scalar operands is empty
+            counted = counted or (scal_v is not None and ('truth', scal_v, False) in fs)
             ck.expect('N3', few or counted, hfn, 'the chain is returned unchanged only when it holds at most one scalar operator (counted over the whole chain)',
                       'HomothetyRule returns the chain unchanged on a path where the number of scalar operators in the whole chain is not known to be 0 or 1: several scalar factors can remain', instance=f'unchanged return {nunchanged}')
 
